@@ -918,6 +918,22 @@ class ExprMixin:
             return lo
         saved = dict(st.locals)
         try:
+            if it.op == "CondList" and kind in ("list", "gen"):
+                # a comprehension over conditionally present items: each mapped item is present under its condition
+                pairs = []
+                for cn0, x in zip(it.args[0::2], it.args[1::2]):
+                    self.assign(gen.target, x, fr, st)
+                    cs = [self.val(cnd, fr, st) for cnd in gen.ifs]
+                    ts = [self.truth(c_) for c_ in cs]
+                    if any(t is False for t in ts):
+                        continue
+                    rest = [c_ for c_, t in zip(cs, ts) if t is None]
+                    if not (cn0.op == "Const" and cn0.attr is True):
+                        rest = [cn0] + rest
+                    cn = self.const(True) if not rest else (rest[0] if len(rest) == 1 else
+                                                           self.mk("BoolOp", tuple(rest), "And", site))
+                    pairs.append((cn, self.eval(e.elt, fr, st)))
+                return self.mk("CondList", tuple(x for pr_ in pairs for x in pr_), kind, site)
             items = self.known_items(it)
             if items is not None and kind in ("list", "gen") and gen.ifs:
                 # filters that do not fold: keep (condition, element) per item
